@@ -57,12 +57,21 @@ Proof.
   induction k as [|k IH]; [reflexivity|]. cbn [repeat]. rewrite be_decode_cons, IH. simpl. lia.
 Qed.
 
+Lemma shiftr8 v : Z.shiftr v 8 = v / 256.
+Proof. rewrite Z.shiftr_div_pow2 by lia. reflexivity. Qed.
+
+Lemma land255 v : Z.land v 255 = v mod 256.
+Proof. change 255 with (Z.ones 8). rewrite Z.land_ones by lia. reflexivity. Qed.
+
+Lemma be_encode_S n v : be_encode (S n) v = be_encode n (v / 256) ++ [Z.to_N (v mod 256)].
+Proof. cbn [be_encode]. rewrite shiftr8, land255. reflexivity. Qed.
+
 Lemma be_encode_length n : forall v, length (be_encode n v) = n.
 Proof. induction n as [|n IH]; intros v; cbn [be_encode]; [reflexivity|]. rewrite app_length, IH. simpl. lia. Qed.
 
 Lemma be_encode_bytes_ok n : forall v, bytes_ok (be_encode n v).
 Proof.
-  induction n as [|n IH]; intros v; cbn [be_encode]; [constructor|].
+  induction n as [|n IH]; intros v; [constructor|]. rewrite be_encode_S.
   apply Forall_app. split; [apply IH|]. constructor; [|constructor].
   pose proof (Z.mod_pos_bound v 256). lia.
 Qed.
@@ -71,7 +80,7 @@ Lemma be_decode_encode n : forall v, 0 <= v < 256 ^ Z.of_nat n -> be_decode (be_
 Proof.
   induction n as [|n IH]; intros v Hv.
   - simpl in Hv. cbn [be_encode]. rewrite be_decode_nil. lia.
-  - cbn [be_encode]. rewrite be_decode_snoc.
+  - rewrite be_encode_S. rewrite be_decode_snoc.
     rewrite Nat2Z.inj_succ, Z.pow_succ_r in Hv by lia.
     rewrite IH.
     + rewrite Z2N.id by (apply Z.mod_pos_bound; lia). pose proof (Z.div_mod v 256). lia.
@@ -82,7 +91,7 @@ Lemma be_encode_decode l : bytes_ok l -> be_encode (length l) (be_decode l) = l.
 Proof.
   induction l as [|x r IH] using rev_ind; intros H; [reflexivity|].
   apply Forall_app in H. destruct H as [Hr Hx]. inversion Hx as [|? ? Hx' _]; subst.
-  rewrite app_length. cbn [length]. rewrite Nat.add_1_r. cbn [be_encode].
+  rewrite app_length. cbn [length]. rewrite Nat.add_1_r. rewrite be_encode_S.
   rewrite be_decode_snoc.
   assert (E1 : (be_decode r * 256 + Z.of_N x) / 256 = be_decode r).
   { rewrite Z.div_add_l by lia. rewrite Z.div_small by lia. lia. }
@@ -94,7 +103,7 @@ Qed.
 (* encoding into more bytes than needed pads with zero bytes on the left *)
 Lemma be_encode_zero n : be_encode n 0 = repeat 0%N n.
 Proof.
-  induction n as [|n IH]; [reflexivity|]. cbn [be_encode]. rewrite Z.div_0_l, IH by lia.
+  induction n as [|n IH]; [reflexivity|]. rewrite be_encode_S. rewrite Z.div_0_l, IH by lia.
   change (Z.to_N (0 mod 256)) with 0%N. change [0%N] with (repeat 0%N 1).
   rewrite <- repeat_app. rewrite Nat.add_1_r. reflexivity.
 Qed.
@@ -105,7 +114,7 @@ Proof.
   induction n as [|n IH]; intros k v Hv.
   - simpl in Hv. assert (v = 0) by lia. subst. rewrite Nat.add_0_r. cbn [be_encode].
     rewrite app_nil_r. apply be_encode_zero.
-  - rewrite Nat.add_succ_r. cbn [be_encode]. rewrite IH.
+  - rewrite Nat.add_succ_r. rewrite !be_encode_S. rewrite IH.
     + rewrite app_assoc. reflexivity.
     + rewrite Nat2Z.inj_succ, Z.pow_succ_r in Hv by lia.
       split; [apply Z.div_pos; lia|]. apply Z.div_lt_upper_bound; lia.
@@ -212,7 +221,7 @@ Section Core.
      of a^(2^258 + priv) mod p; in particular it does not depend on the blinding. *)
   Lemma blinded_modexp_core (r0 : list N) (a : Z) (priv blinding : list N) :
     length r0 = p_publen P -> bytes_ok priv -> bytes_ok blinding ->
-    blinded_modexp P modexp_Z r0 a priv (Some blinding) =
+    blinded_modexp P modexp_Z bn_mod_mul r0 a priv (Some blinding) =
     Some (be_encode (p_publen P) (modexp_Z a (2 ^ 258 + bn_bin2bn priv (p_privlen P)) (modulus P))).
   Proof.
     intros Hr0 Hp Hb. unfold blinded_modexp.
@@ -236,7 +245,7 @@ Section Core.
   Qed.
 
   (* entropy failure is reported *)
-  Lemma blinded_modexp_entropy_failure r0 a priv : blinded_modexp P modexp_Z r0 a priv None = None.
+  Lemma blinded_modexp_entropy_failure r0 a priv : blinded_modexp P modexp_Z bn_mod_mul r0 a priv None = None.
   Proof. reflexivity. Qed.
 End Core.
 
@@ -284,7 +293,7 @@ Proof. split; [|split; [|split; [|split; [|split]]]]; vm_compute; reflexivity. Q
 (* M1 for the repository's constants *)
 Theorem blinded_modexp_correct (r0 : list N) (a : Z) (priv blinding : list N) :
   length r0 = 256%nat -> bytes_ok priv -> length priv = 32%nat -> bytes_ok blinding ->
-  blinded_modexp repo_params modexp_Z r0 a priv (Some blinding) =
+  blinded_modexp repo_params modexp_Z bn_mod_mul r0 a priv (Some blinding) =
   Some (be_encode 256 ((a ^ (2 ^ 258 + be_decode priv)) mod rfc3526_group14)).
 Proof.
   intros Hr0 Hp Hpl Hb.
@@ -302,7 +311,7 @@ Qed.
 (* the same statement for integers: every 256-bit private value x, every a >= 0, every 256-bit r *)
 Corollary blinded_modexp_correct_Z (r0 : list N) (a x r : Z) :
   length r0 = 256%nat -> 0 <= x < 2 ^ 256 -> 0 <= r < 2 ^ 256 ->
-  blinded_modexp repo_params modexp_Z r0 a (be_encode 32 x) (Some (be_encode 32 r)) =
+  blinded_modexp repo_params modexp_Z bn_mod_mul r0 a (be_encode 32 x) (Some (be_encode 32 r)) =
   Some (be_encode 256 ((a ^ (2 ^ 258 + x)) mod rfc3526_group14)).
 Proof.
   intros Hr0 Hx Hr.
@@ -322,14 +331,14 @@ Qed.
 Corollary blinding_independent r0 r0' a priv b1 b2 :
   length r0 = 256%nat -> length r0' = 256%nat -> bytes_ok priv -> length priv = 32%nat ->
   bytes_ok b1 -> bytes_ok b2 ->
-  blinded_modexp repo_params modexp_Z r0 a priv (Some b1) =
-  blinded_modexp repo_params modexp_Z r0' a priv (Some b2).
+  blinded_modexp repo_params modexp_Z bn_mod_mul r0 a priv (Some b1) =
+  blinded_modexp repo_params modexp_Z bn_mod_mul r0' a priv (Some b2).
 Proof. intros. rewrite !blinded_modexp_correct by assumption. reflexivity. Qed.
 
 (* M2 *)
 Theorem generate_pub_correct pub0 priv blinding :
   length pub0 = 256%nat -> bytes_ok priv -> length priv = 32%nat -> bytes_ok blinding ->
-  dh_generate_pub repo_params modexp_Z pub0 priv (Some blinding) =
+  dh_generate_pub repo_params modexp_Z bn_mod_mul pub0 priv (Some blinding) =
   Some (be_encode 256 (dh_pub_spec (be_decode priv))).
 Proof.
   intros. unfold dh_generate_pub. rewrite blinded_modexp_correct by assumption.
@@ -338,7 +347,7 @@ Qed.
 
 Theorem compute_correct key0 pub priv blinding :
   length key0 = 256%nat -> length pub = 256%nat -> bytes_ok priv -> length priv = 32%nat -> bytes_ok blinding ->
-  dh_compute repo_params modexp_Z key0 pub priv (Some blinding) =
+  dh_compute repo_params modexp_Z bn_mod_mul key0 pub priv (Some blinding) =
   Some (be_encode 256 (dh_key_spec (be_decode pub) (be_decode priv))).
 Proof.
   intros Hk Hpub Hp Hpl Hb. unfold dh_compute. rewrite blinded_modexp_correct by assumption.
@@ -348,7 +357,7 @@ Qed.
 
 Theorem generate_correct pub0 priv blinding rest :
   length pub0 = 256%nat -> bytes_ok priv -> length priv = 32%nat -> bytes_ok blinding ->
-  dh_generate repo_params modexp_Z pub0 (Some priv :: Some blinding :: rest) =
+  dh_generate repo_params modexp_Z bn_mod_mul pub0 (Some priv :: Some blinding :: rest) =
   Some (be_encode 256 (dh_pub_spec (be_decode priv)), priv).
 Proof.
   intros Hpub Hp Hpl Hb. unfold dh_generate.
@@ -381,11 +390,11 @@ Theorem agreement pubA0 pubB0 keyA0 keyB0 privA privB bA bB bA' bB' pubA pubB :
   length pubA0 = 256%nat -> length pubB0 = 256%nat -> length keyA0 = 256%nat -> length keyB0 = 256%nat ->
   bytes_ok privA -> length privA = 32%nat -> bytes_ok privB -> length privB = 32%nat ->
   bytes_ok bA -> bytes_ok bB -> bytes_ok bA' -> bytes_ok bB' ->
-  dh_generate_pub repo_params modexp_Z pubA0 privA (Some bA) = Some pubA ->
-  dh_generate_pub repo_params modexp_Z pubB0 privB (Some bB) = Some pubB ->
+  dh_generate_pub repo_params modexp_Z bn_mod_mul pubA0 privA (Some bA) = Some pubA ->
+  dh_generate_pub repo_params modexp_Z bn_mod_mul pubB0 privB (Some bB) = Some pubB ->
   exists key,
-    dh_compute repo_params modexp_Z keyA0 pubB privA (Some bA') = Some key /\
-    dh_compute repo_params modexp_Z keyB0 pubA privB (Some bB') = Some key.
+    dh_compute repo_params modexp_Z bn_mod_mul keyA0 pubB privA (Some bA') = Some key /\
+    dh_compute repo_params modexp_Z bn_mod_mul keyB0 pubA privB (Some bB') = Some key.
 Proof.
   intros HlA0 HlB0 HkA0 HkB0 HpA HlA HpB HlB HbA HbB HbA' HbB' EA EB.
   rewrite generate_pub_correct in EA, EB by assumption.
